@@ -12,7 +12,7 @@ Inductive rawdg :=
 
 Inductive rawev :=
 | RHs (p idx key : int)
-| RAge (p secs : int)
+| RAge (p ms : int)                       (* milliseconds *)
 | RDg (l : list rawdg).
 
 (* per step: TUN writes (length, packed bytes) in order, rx_bytes delta per peer *)
@@ -23,7 +23,8 @@ Inductive case :=
            (tbl : list (list int))     (* [family 4|6; prefix length; owner; w0; w1; w2; w3] *)
            (npeers : int)
            (evs : list rawev)
-           (obs : list rawobs).
+           (obs : list rawobs)
+| Crashed.                              (* the device panicked in this scenario *)
 
 Definition ni := n_of_int.
 Definition nthi (l : list int) (k : nat) : N := ni (nth k l 0%uint63).
@@ -46,7 +47,7 @@ Definition dec_dg (r : rawdg) : dgram :=
 Definition dec_ev (r : rawev) : event :=
   match r with
   | RHs p i k => Handshake (ni p) (ni i) (ni k)
-  | RAge p s => Age (ni p) (ni s * 1000000000)
+  | RAge p s => Age (ni p) (ni s * 1000000)
   | RDg l => Dgrams (map dec_dg l)
   end.
 
@@ -95,6 +96,7 @@ Definition check_case (c : case) : list (N * N) :=
       let ob := map dec_obs obs in
       opt_fail 1 (cmp_steps np (outs step (init_state t np) es) ob 0) ++
       opt_fail 2 (holds_trace (effective t) np [] es (map fst ob) 0)
+  | Crashed => [(1, 0)]
   end.
 
 Fixpoint check_cases (ks : list case) (idx : N) : list (N * N * N) :=
@@ -158,6 +160,7 @@ Definition stats_case (a : list N) (c : case) : list N :=
   match c with
   | Scenario hdr tbl npeers evs obs =>
       stat_evs (init_state (map dec_entry tbl) (ni npeers)) (map dec_ev evs) a
+  | Crashed => a
   end.
 
 Definition stats (ks : list case) : list N := fold_left stats_case ks [0;0;0;0;0;0;0;0;0;0;0;0;0].
